@@ -114,6 +114,8 @@ const (
 	opDrawFiltered     // Bool().Filter(id).Draw (rejection-based)
 	opDeepB            // the same helper called from statement B: the tracebacks differ only in the outermost frames
 	opFatalVal         // Fatalf at site D whose MESSAGE depends on the last drawn bool (same traceback, two messages)
+	opErrorEmpty       // t.Error() with no arguments: a non-fatal failure whose message is the empty string
+	opPanicNil         // panic(nil)
 	opCount
 )
 
@@ -144,6 +146,7 @@ type vInv struct {
 	ctxInCleanupCancelled []bool
 	overlap  bool // another invocation began before this one's cleanups finished
 	rawPanics    int // panic(x) / run-time panics raised by user code (not through T)
+	panicNil     int // panic(nil) raised by user code
 	cleanupSkips int // t.Skip called from inside a cleanup callback
 	cleanupInvalid int // cleanup callbacks that ended by raising invalid data (skip, overrun, ...)
 }
@@ -279,6 +282,16 @@ func (p *vProg) execCB(t *T, ops []uint8, inv *vInv, inCallback bool, inCleanup 
 			inv.signals++
 			inv.nonFatal++
 			t.Errorf("non-fatal failure")
+		case opErrorEmpty:
+			inv.signals++
+			inv.nonFatal++
+			t.Error()
+		case opPanicNil:
+			inv.signals++
+			inv.rawPanics++
+			inv.panicNil++
+			inv.fatalAt = 12
+			panic(nil)
 		case opFail:
 			inv.signals++
 			inv.nonFatal++
